@@ -108,7 +108,8 @@ def variants_for(prop, rnd):
     if prop == "C10":
         return [{"mode": "sequential"}, {"mode": "bidirectional"}, {"mode": "heat"},
                 {"mode": "sequential", "blabels": rnd.choice(["desc", "gap", "big"]), "shuffle": rnd.randrange(1000), "tn": 330.0},
-                {"mode": "bidirectional", "tn": 290.0, "split": True}]
+                {"mode": "bidirectional", "tn": 290.0, "split": True},
+                {"mode": "sequential", "thickwall": True}, {"mode": "bidirectional", "thickwall": True, "numba": True}]
     if prop == "C07":
         return [{"mode": "sequential", "numba": True}, {"mode": "bidirectional", "numba": True}]
     return [{"mode": "sequential"}]
